@@ -30,6 +30,7 @@ type lwRand struct {
 	s     uint64
 	json  bool // JSON mode: Option payloads must not encode as null unless the field is marked loose
 	depth int  // nesting depth of container generators (bounds recursive struct values)
+	nz    bool // every struct field gets a non-zero, non-empty value where its type has one (lwNZ)
 }
 
 func lwNewRand(seed uint64, jsonMode bool) *lwRand { return &lwRand{s: seed*0x9e3779b97f4a7c15 + 0x1234567, json: jsonMode} }
@@ -46,6 +47,33 @@ func (r *lwRand) n(k int) int { return int(r.u64() % uint64(k)) }
 
 // lwG generates a value; nn = the value must not have the JSON encoding null.
 type lwG[T any] func(r *lwRand, nn bool) T
+
+// lwZeroish: the zero value, a nil pointer / interface, or an empty string / slice / map.
+func lwZeroish(v reflect.Value) bool {
+	if !v.IsValid() {
+		return true
+	}
+	switch v.Kind() {
+	case reflect.Slice, reflect.Map, reflect.String:
+		return v.Len() == 0
+	case reflect.Interface, reflect.Ptr:
+		return v.IsNil()
+	}
+	return v.IsZero()
+}
+
+// lwNZ draws a field value. In the ordinary mode it is exactly g(r, false); in nz mode the draw
+// is repeated (bounded) until the value is neither zero nor empty.
+func lwNZ[T any](r *lwRand, g lwG[T]) T {
+	v := g(r, false)
+	if !r.nz || r.depth > 0 {
+		return v // nested below a container (pointer / slice / map / Option): ordinary draw, keeps recursive types finite
+	}
+	for k := 0; k < 40 && lwZeroish(reflect.ValueOf(&v).Elem()); k++ {
+		v = g(r, true)
+	}
+	return v
+}
 
 type lwSigned interface {
 	~int | ~int8 | ~int16 | ~int32 | ~int64
